@@ -13,6 +13,7 @@ impl Name {
     pub open spec fn lstart(&self, i: int) -> int { if i <= 0 { 0 } else { self.label_ends@[i - 1] as int } }
     pub open spec fn lend(&self, i: int) -> int { self.label_ends@[i] as int }
     pub open spec fn label(&self, i: int) -> Seq<u8> { self.label_data@.subrange(self.lstart(i), self.lend(i)) }
+    #[verifier::opaque]
     pub open spec fn labels(&self) -> Seq<Seq<u8>> { Seq::new(self.nlabels() as nat, |i: int| self.label(i)) }
     // representation invariant: total encoded length <= 255 (RFC 1035 2.3.4), ends are monotone and
     // the last end is the data length
@@ -79,28 +80,50 @@ impl Name {
 //%end
 }
 
-// extending keeps earlier labels and appends exactly `label`
-pub proof fn lemma_extend_labels(old_n: Name, new_n: Name, label: Seq<u8>)
-    requires old_n.wf(),
-        new_n.label_data@ =~= old_n.label_data@ + label,
-        new_n.label_ends@ =~= old_n.label_ends@.push((old_n.label_data@.len() + label.len()) as u8),
-        old_n.enc_len() + label.len() + 1 <= 255,
-    ensures new_n.wf(), new_n.nlabels() == old_n.nlabels() + 1,
-        forall|i: int| 0 <= i < old_n.nlabels() ==> new_n.lstart(i) == old_n.lstart(i) && new_n.lend(i) == old_n.lend(i),
-        new_n.lend(old_n.nlabels()) - new_n.lstart(old_n.nlabels()) == label.len(),
-        new_n.labels() =~= old_n.labels().push(label),
-        old_n.labels_bounded() && 1 <= label.len() <= 63 ==> new_n.labels_bounded(),
+// extending keeps earlier labels and appends exactly `label` (split into three small lemmas so that
+// each solver query stays small and stable)
+pub open spec fn extends(old_n: Name, new_n: Name, label: Seq<u8>) -> bool {
+    &&& old_n.wf()
+    &&& new_n.label_data@ =~= old_n.label_data@ + label
+    &&& new_n.label_ends@ =~= old_n.label_ends@.push((old_n.label_data@.len() + label.len()) as u8)
+    &&& old_n.enc_len() + label.len() + 1 <= 255
+}
+pub proof fn lemma_extend_index(old_n: Name, new_n: Name, label: Seq<u8>)
+    requires extends(old_n, new_n, label)
+    ensures new_n.nlabels() == old_n.nlabels() + 1,
+        forall|i: int| 0 <= i < old_n.nlabels() ==> new_n.lstart(i) == old_n.lstart(i) && #[trigger] new_n.label_ends@[i] == old_n.label_ends@[i],
+        new_n.lstart(old_n.nlabels()) == old_n.label_data@.len(),
+        new_n.label_ends@[old_n.nlabels()] as int == old_n.label_data@.len() + label.len(),
 {
     let n = old_n.nlabels();
+    if n > 0 { assert(old_n.label_ends@[n - 1] as int == old_n.label_data@.len()); }
+}
+pub proof fn lemma_extend_wf(old_n: Name, new_n: Name, label: Seq<u8>)
+    requires extends(old_n, new_n, label)
+    ensures new_n.wf(),
+        old_n.labels_bounded() && 1 <= label.len() <= 63 ==> new_n.labels_bounded(),
+{
+    lemma_extend_index(old_n, new_n, label);
+    let n = old_n.nlabels();
     assert forall|i: int| 0 <= i < new_n.nlabels() implies new_n.lstart(i) <= (#[trigger] new_n.label_ends@[i]) as int <= new_n.label_data@.len() by {
-        if i < n { assert(old_n.lstart(i) <= old_n.label_ends@[i] as int); } else { if n > 0 { assert(old_n.lend(n - 1) == old_n.label_data@.len()); } }
+        if i < n { assert(old_n.lstart(i) <= old_n.label_ends@[i] as int <= old_n.label_data@.len()); }
     }
     if old_n.labels_bounded() && 1 <= label.len() <= 63 {
         assert forall|i: int| 0 <= i < new_n.nlabels() implies 1 <= (#[trigger] new_n.label_ends@[i]) as int - new_n.lstart(i) <= 63 by {
-            if i < n { assert(1 <= old_n.label_ends@[i] as int - old_n.lstart(i) <= 63); } else { if n > 0 { assert(old_n.lend(n - 1) == old_n.label_data@.len()); } }
+            if i < n { assert(1 <= old_n.label_ends@[i] as int - old_n.lstart(i) <= 63); }
         }
     }
-    if n > 0 { assert(old_n.lend(n - 1) == old_n.label_data@.len()); }
+}
+pub proof fn lemma_extend_labels(old_n: Name, new_n: Name, label: Seq<u8>)
+    requires extends(old_n, new_n, label)
+    ensures new_n.wf(), new_n.nlabels() == old_n.nlabels() + 1,
+        new_n.labels() =~= old_n.labels().push(label),
+        old_n.labels_bounded() && 1 <= label.len() <= 63 ==> new_n.labels_bounded(),
+{
+    lemma_extend_index(old_n, new_n, label);
+    lemma_extend_wf(old_n, new_n, label);
+    reveal(Name::labels);
+    let n = old_n.nlabels();
     assert forall|i: int| 0 <= i < new_n.nlabels() implies #[trigger] new_n.labels()[i] =~= old_n.labels().push(label)[i] by {
         if i < n {
             assert(old_n.lstart(i) <= old_n.label_ends@[i] as int <= old_n.label_data@.len());
